@@ -168,6 +168,14 @@ Json::Value baseline(uint64_t seed) {
     rs["cgroup"] = "work/*";
     cfg["rulesets"].append(rs);
   }
+  // a ruleset-level cgroup whose action parks (ASYNC_PAUSED) every time it runs; its detector fires at
+  // tick 0 only. Once every matching cgroup has vanished the parked chains are gone with them:
+  // cgroups re-created later start from nothing and the action never runs for them
+  {
+    Json::Value rs = rsOf("percg2", vdet("dc2"), {plug("vp_action", {{"id", "park2"}})});
+    rs["cgroup"] = "work/*";
+    cfg["rulesets"].append(rs);
+  }
   cfg["prekill_hooks"].append(plug("dummy_prekill_hook", {{"cgroup", "/"}}));
   sc["config"] = cfg;
   sc["interval"] = 5;
@@ -191,7 +199,12 @@ Json::Value baseline(uint64_t seed) {
   scripts["detectors"]["dc"].append("S");
   scripts["detectors"]["dc"].append("C");
   scripts["detectors"]["dc"].append("S");
+  scripts["detectors"]["dc2"] = Json::Value(Json::arrayValue);
+  scripts["detectors"]["dc2"].append("C");
+  scripts["detectors"]["dc2"].append("S");
+  scripts["detectors"]["dc2"].append("S");
   scripts["actions"]["a"] = "C";
+  scripts["actions"]["park2"] = "A";
   sc["ticks"] = ticks;
   sc["scripts"] = scripts;
   return sc;
@@ -271,6 +284,37 @@ Json::Value applyStaticFaults(const Json::Value& base, const Json::Value& faults
       }
     } else if (kind == "dt_unknown") {
       sc["dt_unknown"] = true;
+    } else if (kind == "vanish") {
+      // every child of `prefix` is removed before tick `at` and re-created (same specs) before the next
+      int at = f["at"].asInt();
+      std::string prefix = f["prefix"].asString();
+      // one more quiet tick at the end: a chain that wrongly survived needs a second sample to act
+      {
+        Json::Value tick(Json::objectValue);
+        tick["adv_ms"] = 5000;
+        tick["ops"] = Json::Value(Json::arrayValue);
+        sc["ticks"].append(tick);
+        for (auto& id : sc["scripts"]["detectors"].getMemberNames())
+          if (sc["scripts"]["detectors"][id].isArray()) sc["scripts"]["detectors"][id].append("S");
+      }
+      int nt = (int)sc["ticks"].size();
+      if (at < 1 || at >= nt) continue;
+      std::vector<Cg> subtree;
+      for (auto& c : w.cgs)
+        if (c.path != prefix && w.isDescendantOrSelf(prefix, c.path)) subtree.push_back(c);
+      for (auto* ch : w.children(prefix)) {
+        Op rm;
+        rm.op = "rm";
+        rm.path = ch->path;
+        sc["ticks"][at]["ops"].append(rm.toJson());
+      }
+      if (at + 1 < nt)
+        for (auto& c : subtree) {
+          Op mk;
+          mk.op = "mk";
+          mk.cg = c;
+          sc["ticks"][at + 1]["ops"].append(mk.toJson());
+        }
     }
   }
   sc["world"] = w.toJson();
@@ -348,7 +392,7 @@ RunOut runWithFaults(const Json::Value& c) {
   out.nticks = (int)sc["ticks"].size();
   out.R = runDaemon(sc, &hooks);
   for (auto& f : faults)
-    if (f["kind"].asString() == "dropkey" || f["kind"].asString() == "dt_unknown") out.hits++;
+    if (f["kind"].asString() == "dropkey" || f["kind"].asString() == "dt_unknown" || f["kind"].asString() == "vanish") out.hits++;
   return out;
 }
 
@@ -396,6 +440,8 @@ void checkContainment(const RunResult& R, const std::map<int, std::vector<World>
 
 Verdict judge(const Json::Value& c) {
   Verdict v;
+  if (const char* dump = getenv("VP_C10_DUMP"))
+    if (c["faults"].size() == 1 && c["faults"][0]["kind"].asString() == dump) jsave(std::string("/tmp/c10-") + dump + "-" + c["faults"][0].get("prefix", "x").asString() + ".json", c);
   RunOut o = runWithFaults(c);
   if (!o.R.config_ok) {
     // a fault present from tick 0 may legitimately make init fail (e.g. no
@@ -415,6 +461,12 @@ Verdict judge(const Json::Value& c) {
   for (auto& e : o.R.trace)
     if (v.ok && e.k == "plugin" && e.s == "run" && e.s2 == "a_sfr")
       v.fail("swap_free saw a swap-out rate of at least 1 byte/s at tick " + std::to_string(e.tick) + " although pswpout never changed (a statistic that is unavailable must not be reported as a value)");
+  for (auto& f : c["faults"]) {
+    if (f["kind"].asString() != "vanish" || f["prefix"].asString() != "work") continue;
+    for (auto& e : o.R.trace)
+      if (v.ok && e.k == "plugin" && e.s == "run" && e.s2 == "park2" && e.tick > f["at"].asInt())
+        v.fail("the parked action of ruleset percg2 ran at tick " + std::to_string(e.tick) + " for a cgroup re-created after every match of work/* had vanished at tick " + std::to_string(f["at"].asInt()) + " (its detector fired at tick 0 only: the chain must be dropped with the cgroup)");
+  }
   if (!v.ok) v.why += " under faults " + jstr(c["faults"]);
   if (o.hits > 0) v.nontrivial = true;
   for (auto& f : c["faults"]) v.labels.push_back("fault_" + f["kind"].asString());
@@ -502,6 +554,14 @@ std::vector<Json::Value> enumerate(uint64_t bseed) {
     Json::Value f(Json::objectValue);
     f["kind"] = "dt_unknown";
     add(f);
+  }
+  for (const char* prefix : {"work", "sys"}) {
+    Json::Value f(Json::objectValue);
+    f["kind"] = "vanish";
+    f["prefix"] = prefix;
+    f["at"] = 1;
+    add(f);
+    out.back()["always"] = true;
   }
   long n = recordAccesses(base, 1);
   for (long k = 1; k <= n; k++)
